@@ -343,6 +343,12 @@ def w_normalisers(ctx, rng, i):
     x = im.pixels if cls == "array" else im
     if cls == "array" and rng.random() < 0.25:
         x = im.pixels.view(PixelBuffer)
+    flat2d = None
+    if cls == "array" and C == 1 and len(shp) == 2 and rng.random() < 0.4:
+        # a single-channel picture handed over without its channel axis (accepted: "2D, implicitly one channel"): the caller's
+        # array is the caller's - same numbers, same shape afterwards
+        x = np.array(im.pixels[0], copy=True)
+        flat2d = (x.shape, x.copy())
     f = getattr(mf, fname)
     # (the flag in any of the spellings a caller's own computation yields: a Python bool, a numpy bool, 0 / 1)
     err_arg = [err, err, np.bool_(err), int(err)][rng.integers(0, 4)]
@@ -386,6 +392,10 @@ def w_normalisers(ctx, rng, i):
             r = f(x, **kwargs)
     except Exception as e:
         exc = e
+    if flat2d is not None:
+        ctx.tap("array_without_a_channel_axis", "calls"); ctx.tap("array_without_a_channel_axis", "checked")
+        if x.shape != flat2d[0] or not np.array_equal(x, flat2d[1], equal_nan=True):
+            ctx.fail("feature_modified_its_input_array", cls=fname, mech="array_without_a_channel_axis:" + ("shape" if x.shape != flat2d[0] else "values"), before=list(flat2d[0]), after=list(x.shape))
     tol = 1e-9 if dtype == np.float64 else 2e-4
     key = "%s:%s:%s" % (fname, mode, cls)
     ctx.tap("normaliser_reference", "calls"); ctx.tap("normaliser_reference", "checked")
